@@ -9,7 +9,13 @@
 unsigned long long g_sat;   /* saturating Horner value of the digits consumed so far            */
 size_t g_ndig;              /* number of digits folded into g_sat                                */
 size_t g_len;               /* length of the collected argument text (index of its NUL)         */
-size_t g_k;                 /* witness index: arbitrary but fixed, stands for "every k"         */
+size_t g_k;                 /* witness index into the argument text: arbitrary but fixed, stands for "every k" */
+size_t g_j;                 /* witness index into a variable's data bytes                        */
+size_t g_size;              /* string decoder: number of decoded bytes so far                    */
+size_t g_nesc;              /* string decoder: number of escape sequences decoded so far         */
+size_t g_src;               /* string decoder: text position the witness byte g_j was decoded from */
+uint8_t g_oldbyte;          /* value of the witness data byte g_j before the call                */
+_Bool  g_esc;               /* string decoder: witness byte came from an escape sequence         */
 
 #define V_SAT_CAP      (1ULL << 40)
 #define V_SAT(x)       (((x) > V_SAT_CAP) ? V_SAT_CAP : (x))
@@ -17,5 +23,9 @@ size_t g_k;                 /* witness index: arbitrary but fixed, stands for "e
 #define V_ISHEX(c)     (V_ISDIGIT(c) || ((c) >= 'A' && (c) <= 'F') || ((c) >= 'a' && (c) <= 'f'))
 #define V_HEXVAL(c)    (V_ISDIGIT(c) ? ((c) - '0') : (((c) >= 'a') ? ((c) - 'a' + 10) : ((c) - 'A' + 10)))
 #define V_ISTERM(c)    ((c) == 0 || (c) == ',')
+#define V_ISSIGN(c)    ((c) == '+' || (c) == '-')
+#define V_ISX(c)       ((c) == 'x' || (c) == 'X')
+#define V_ISESC(c)     ((c) == '\\' || (c) == '"' || (c) == 'n')
+#define V_UNESC(c)     (((c) == 'n') ? '\n' : (c))
 
 #endif
